@@ -15,3 +15,36 @@ package audit
 //@     needs after m.log(_, _, $phase, _, $e, __) where $phase == auditlog.PhaseComplete && $e == $err
 //@ effect[C26:complete-matches-start] every m.log(_, $op, $phase, $res, __) if $phase == auditlog.PhaseComplete
 //@     needs before m.log(_, $op0, $phase0, $res0, __) where $phase0 == auditlog.PhaseStart && $op0 == $op && $res0.bucket == $res.bucket && $res0.key == $res.key
+
+// The hash chain. m.lastHash and m.hashBuffer belong to m.mu (`guards`): what a goroutine read from them before it
+// acquired the lock says nothing about their value under the lock. Every entry handed to the sink was chained to the
+// hash that is current under the lock, signed after that, and describes this very call: operation, phase, resource and
+// an outcome that is pending for START, and error / success according to the call's error for COMPLETE.
+//@ func (*AuditLogMiddleware).log
+//@ mode effects
+//@ guards m.mu m.lastHash m.hashBuffer
+//@ effect[C26:chained-under-the-lock] every m.sink.WriteEntry($e)
+//@     needs before m.mu.Lock()
+//@     where same($e.PreviousHash, m.lastHash) && $e.Type == auditlog.EntryTypeLog
+//@ effect[C26:signed-after-chaining] every m.sink.WriteEntry($e)
+//@     needs before (*auditlog.Entry).Sign(_)
+//@ effect[C26:nothing-chained-after-signing] every (*auditlog.Entry).Sign(_) needs before m.mu.Lock()
+//@ effect[C26:entry-describes-the-call] every m.sink.WriteEntry($e)
+//@     where specLogOf($e.Details) != nil && specLogOf($e.Details).Operation == op && specLogOf($e.Details).Phase == phase &&
+//@         specLogOf($e.Details).Resource.Bucket == resource.bucket && specLogOf($e.Details).Resource.Key == resource.key &&
+//@         specLogOf($e.Details).Outcome.Outcome == specOutcome(phase, err != nil)
+//@ effect[C26:grounding-when-the-block-is-full] every m.emitGrounding(__)
+//@     needs before m.sink.WriteEntry(_) -> ($werr)
+//@     where $werr == nil && len(m.hashBuffer) >= auditlog.GroundingBlockSize
+//@ effect[C26:grounding-under-the-lock] every m.emitGrounding(__) needs before m.mu.Lock()
+//@ effect[C26:grounding-under-the-same-lock] every m.emitGrounding(__) forbids before m.mu.Unlock()
+//@ effect[C26:written-under-the-lock] every m.sink.WriteEntry(_) forbids before m.mu.Unlock()
+
+// A grounding entry continues the chain and closes the block: it is chained to the current hash, carries the Merkle
+// root of exactly the buffered hashes, and the buffer restarts empty only when the sink took the entry.
+//@ func (*AuditLogMiddleware).emitGrounding
+//@ mode effects
+//@ effect[C26:grounding-chained] every m.sink.WriteEntry($e)
+//@     needs before auditlog.CalculateMerkleRoot($hs) -> ($root)
+//@     where same($e.PreviousHash, old(m.lastHash)) && $e.Type == auditlog.EntryTypeGrounding && same($hs, old(m.hashBuffer)) && specGrounding($e.Details) != nil && same(specGrounding($e.Details).MerkleRootHash, $root)
+//@ effect[C26:grounding-signed] every m.sink.WriteEntry(_) needs before (*auditlog.Entry).Sign(_)
